@@ -647,6 +647,10 @@ def _args_in(e, facts, depth):
     return out
 
 
+# operators whose two templates are written differently on purpose and were compared by hand + on the domain
+SHAPE_EQUIV = {"ModF"}
+
+
 def thorough_domain():
     """thorough tier: the class domain plus seeded random doubles over the whole exponent range and integer boundaries"""
     import os
@@ -766,6 +770,23 @@ def run(ck, facts, cg, anchors, tier):
                 ck.bad(R, "op|%s" % m, msg, "%s ; %s" % (vd.fn.where(), wl.fn.where()), desc)
         else:
             ck.ok(R, "op|%s" % m, desc)
+        # ---- same computation, not only same values on the probe points: a VM arm that picks a different arithmetic
+        # expression for particular operand values (a "fast path": x*x for x^2.0) agrees with the host's libm call on
+        # almost every input and differs in the last bit on a few — no finite probe set is sure to contain one.  Every
+        # non-constant value template of the VM arm must be the expression the WASM sequence computes.
+        import re as _re
+
+        def _shift(t):
+            return _re.sub(r"src(\d+)", lambda mm: "src%d" % (int(mm.group(1)) - 1), t)
+
+        vm_exprs = {_shift(show_t(v)) for _, _, v in vt if not _re.fullmatch(r"-?[0-9.]+(e-?[0-9]+)?", show_t(v))}
+        w_exprs = {show_t(w) for _, w in wps}
+        if vm_exprs and m not in SHAPE_EQUIV:
+            extra = sorted(x for x in vm_exprs if x not in w_exprs)
+            if extra and len(vm_exprs) > 1:
+                ck.bad(R, "op-shape|%s" % m, "operator %s: the VM arm computes %s depending on the operand values, the WASM sequence always computes %s: a special-cased path (%s) is a different floating-point computation, equal on most operands and off by an ulp on some" % (m, " or ".join(sorted(vm_exprs)), " / ".join(sorted(w_exprs)), extra[0]), "%s ; %s" % (vd.fn.where(), wl.fn.where()))
+            else:
+                ck.ok(R, "op-shape|%s" % m)
     ck.floor(R, "operators_compared", compared, 25)
     ck.setcount("operators_not_comparable", len(skipped))
     for m, why in skipped:
